@@ -14,6 +14,9 @@ function equal to the hand-written model for ALL arguments:
   graph.AbstractNode.comp_obs_prob          -> gen_comp_obs_prob        (unknown finding = factor 1, else table entry)
   models.Unilateral.transition_prob         -> gen_transition_prob      (= Transition.transition_prob, `break` included)
   matrix.compute_encoding (main loop)       -> gen_compute_encoding     (= Observation.compute_encoding)
+  matrix.generate_transition                -> gen_generate_transition  (N x N index grids, fancy indexing, np.where; =
+                                               NumpyTransition.np_generate_transition by conversion, which is PROVED equal
+                                               to Transition.generate_transition for every well-formed graph)
 
 Fail-closed: every statement / expression form that is not listed in `Imp` raises `Untranslatable`.
 
@@ -639,8 +642,177 @@ def translate_compute_encoding() -> str:
             "Proof. intros l p b. reflexivity. Qed.\n")
 
 
+# ----------------------------------------------------------------------------------------------------------------------
+# matrix.generate_transition: N x N index grids, fancy indexing, np.where  (advisory: a loop nest maintainers do rewrite)
+# ----------------------------------------------------------------------------------------------------------------------
+class Grid:
+    """2-D arrays of equal shape and element-wise code over them.
+    statements   NAME = ARRAY | NAME = NAT | NAME *= ARRAY (Hadamard) | lnls = list(lnls) (dropped)
+                 | if edge.is_tumor_spread: ...; V = A  else: ...; V = B        (both branches end by assigning V)
+                 | for i, lnl in enumerate(lnls): BODY | for edge in lnl.inc: BODY   (one accumulator each) | return NAME
+    arrays       NAME | np.ones(shape=(A, B)) | get_state_idx_matrix(lnl_idx=, num_lnls=, num_states=) | NAME.T
+                 | edge.transition_tensor[0 | NAME, NAME, NAME] | element-wise expressions over array names:
+                   A == B (as 0/1 values), np.where(A == B + 1, X, Y), + - * with integer / float constants"""
+
+    def __init__(self):
+        self.nat = Imp({}, self._nat_hook, [])
+        self.arr = {}                     # python name -> 'nat' | 'Q'
+
+    def _nat_hook(self, imp, e):
+        if isinstance(e, ast.Call) and isinstance(e.func, ast.Name) and e.func.id == "len" and len(e.args) == 1 \
+                and isinstance(e.args[0], ast.Name) and e.args[0].id == "lnls":
+            return ("(length lnl_names)", NAT)
+        if (isinstance(e, ast.Call) and _attr_chain(e.func) == ["lnls", "index"] and len(e.args) == 1
+                and _attr_chain(e.args[0]) == ["edge", "parent"]):
+            return ("(index_of (e_parent edge) lnl_names)", NAT)
+        return None
+
+    # element-wise scalar expression over array leaves; returns (text, type) with leaves replaced by fresh binders
+    def elem(self, e, leaves: list, cond=False):
+        if isinstance(e, ast.Name) and e.id in self.arr:
+            if e.id not in leaves:
+                leaves.append(e.id)
+            return (f"x_{e.id}", self.arr[e.id])
+        if isinstance(e, ast.Constant) and not isinstance(e.value, bool) and isinstance(e.value, (int, float)) and e.value == int(e.value):
+            return (str(int(e.value)), INT)
+        if isinstance(e, ast.BinOp) and isinstance(e.op, (ast.Add, ast.Sub, ast.Mult)):
+            a, b = self.elem(e.left, leaves), self.elem(e.right, leaves)
+            op = {ast.Add: "+", ast.Sub: "-", ast.Mult: "*"}[type(e.op)]
+            ty = Q if Q in (a[1], b[1]) else NAT
+            if ty == NAT and not isinstance(e.op, ast.Add):
+                raise Untranslatable("only + on index grids")
+            co = self.nat.coerce
+            return (f"({co(a, ty)} {op} {co(b, ty)})", ty)
+        if isinstance(e, ast.Compare) and len(e.ops) == 1 and isinstance(e.ops[0], ast.Eq):
+            a, b = self.elem(e.left, leaves), self.elem(e.comparators[0], leaves)
+            if Q in (a[1], b[1]):
+                raise Untranslatable("== on values")
+            t = f"Nat.eqb {self.nat.coerce(a, NAT)} {self.nat.coerce(b, NAT)}"
+            return (f"({t})", BOOL) if cond else (f"(if {t} then 1 else 0)", Q)
+        if _is_np(e, "where") and len(e.args) == 3:
+            c = self.elem(e.args[0], leaves, cond=True)
+            x, y = self.elem(e.args[1], leaves), self.elem(e.args[2], leaves)
+            if c[1] != BOOL:
+                raise Untranslatable("np.where condition")
+            return (f"(if {c[0][1:-1]} then {self.nat.coerce(x, Q)[1:-1]} else {self.nat.coerce(y, Q)[1:-1]})", Q)
+        raise Untranslatable(f"element-wise expression {ast.dump(e)[:160]}")
+
+    def array(self, e):
+        """-> (text, element type)"""
+        if isinstance(e, ast.Name) and e.id in self.arr:
+            return (e.id, self.arr[e.id])
+        if isinstance(e, ast.Call) and _attr_chain(e.func) == ["np", "ones"] and not e.args and len(e.keywords) == 1 \
+                and e.keywords[0].arg == "shape" and isinstance(e.keywords[0].value, ast.Tuple) and len(e.keywords[0].value.elts) == 2:
+            r, c = (self.nat.coerce(self.nat.expr(x), NAT) for x in e.keywords[0].value.elts)
+            return (f"(np_ones {r} {c})", Q)
+        if isinstance(e, ast.Call) and isinstance(e.func, ast.Name) and e.func.id == "get_state_idx_matrix":
+            k, n, b = (self.nat.coerce(self.nat.expr(x), NAT) for x in _kw(e, ["lnl_idx", "num_lnls", "num_states"]))
+            return (f"(np_state_idx {k} {n} {b})", NAT)
+        if isinstance(e, ast.Attribute) and e.attr == "T" and isinstance(e.value, ast.Name) and e.value.id in self.arr:
+            ty = self.arr[e.value.id]
+            return (f"(np_transpose {'0%nat' if ty == NAT else '0'} {e.value.id})", ty)
+        s3 = _sub3(e)
+        if s3 is not None and _attr_chain(s3[0]) == ["edge", "transition_tensor"]:
+            p, c, nw = s3[1]
+            if not all(isinstance(x, ast.Name) and self.arr.get(x.id) == NAT for x in (c, nw)):
+                raise Untranslatable("tensor index grids")
+            if isinstance(p, ast.Constant) and p.value == 0:
+                return (f"(np_map2 (fun c nw => tget (tt edge) 0 c nw) {c.id} {nw.id})", Q)
+            if isinstance(p, ast.Name) and self.arr.get(p.id) == NAT:
+                return (f"(np_map3 (fun p c nw => tget (tt edge) p c nw) {p.id} {c.id} {nw.id})", Q)
+            raise Untranslatable("tensor parent index")
+        leaves = []
+        t, ty = self.elem(e, leaves)
+        if not 2 <= len(leaves) <= 4 or ty != Q:
+            raise Untranslatable(f"element-wise expression over {len(leaves)} arrays")
+        binders = " ".join(f"x_{n}" for n in leaves)
+        return (f"(np_map{len(leaves)} (fun {binders} => {t[1:-1] if t.startswith('(') else t}) {' '.join(leaves)})", Q)
+
+    def block(self, stmts, tail) -> str:
+        if not stmts:
+            if tail is None:
+                raise Untranslatable("falls through")
+            return tail
+        s, rest = stmts[0], stmts[1:]
+        if isinstance(s, ast.Return) and not rest and isinstance(s.value, ast.Name) and s.value.id in self.arr:
+            return s.value.id
+        if isinstance(s, ast.Assign) and len(s.targets) == 1 and isinstance(s.targets[0], ast.Name):
+            name = s.targets[0].id
+            v = s.value
+            if (name == "lnls" and isinstance(v, ast.Call) and isinstance(v.func, ast.Name) and v.func.id == "list"
+                    and len(v.args) == 1 and isinstance(v.args[0], ast.Name) and v.args[0].id == "lnls"):
+                return self.block(rest, tail)
+            try:
+                t, ty = self.nat.expr(v)
+                self.nat.env[name] = (name, NAT)
+                return f"let {name} := {self.nat.coerce((t, ty), NAT)} in\n  {self.block(rest, tail)}"
+            except Untranslatable:
+                pass
+            t, ty = self.array(v)
+            self.arr[name] = ty
+            return f"let {name} := {t} in\n  {self.block(rest, tail)}"
+        if isinstance(s, ast.AugAssign) and isinstance(s.op, ast.Mult) and isinstance(s.target, ast.Name) \
+                and self.arr.get(s.target.id) == Q and isinstance(s.value, ast.Name) and self.arr.get(s.value.id) == Q:
+            return f"let {s.target.id} := hadamard {s.target.id} {s.value.id} in\n  {self.block(rest, tail)}"
+        if isinstance(s, ast.If) and s.orelse and _attr_chain(s.test) == ["edge", "is_tumor_spread"]:
+            def branch(body):
+                last = body[-1]
+                if not (isinstance(last, ast.Assign) and isinstance(last.targets[0], ast.Name)):
+                    raise Untranslatable("branch does not end in an assignment")
+                saved = (dict(self.arr), dict(self.nat.env))
+                marker = "@@V@@"
+                txt = self.block(body[:-1], marker)
+                val = self.array(last.value)
+                self.arr, self.nat.env = saved
+                return last.targets[0].id, txt.replace(marker, val[0]), val[1]
+            v1, a, ty1 = branch(s.body)
+            v2, b, ty2 = branch(s.orelse)
+            if v1 != v2 or ty1 != ty2:
+                raise Untranslatable("branches assign different variables")
+            self.arr[v1] = ty1
+            return f"let {v1} := if is_tumor_spread edge then {a} else ({b}) in\n  {self.block(rest, tail)}"
+        if isinstance(s, ast.For) and not s.orelse:
+            it, tg = s.iter, s.target
+            if (isinstance(it, ast.Call) and isinstance(it.func, ast.Name) and it.func.id == "enumerate" and len(it.args) == 1
+                    and isinstance(it.args[0], ast.Name) and it.args[0].id == "lnls" and isinstance(tg, ast.Tuple)
+                    and [getattr(x, "id", None) for x in tg.elts] == ["i", "lnl"]):
+                lst, binder = "(combine (seq 0 (length lnl_names)) lnl_names)", "'(i, lnl)"
+                bound = {"i": ("i", NAT)}
+            elif _attr_chain(it) == ["lnl", "inc"] and isinstance(tg, ast.Name) and tg.id == "edge":
+                lst, binder, bound = "(inc lnl)", "(edge : edge)", {}
+            else:
+                raise Untranslatable(f"loop over {ast.dump(it)[:120]}")
+            acc = [n for n in Imp.assigned(s.body) if n in self.arr]
+            if len(acc) != 1:
+                raise Untranslatable(f"loop accumulators {acc}")
+            saved = (dict(self.arr), dict(self.nat.env))
+            self.nat.env.update(bound)
+            inner = self.block(list(s.body), acc[0])
+            self.arr, self.nat.env = saved
+            return (f"let {acc[0]} := fold_left (fun ({acc[0]} : mat) {binder} =>\n    {inner})\n    {lst} {acc[0]} in\n  "
+                    f"{self.block(rest, tail)}")
+        raise Untranslatable(f"statement {type(s).__name__}: {ast.dump(s)[:160]}")
+
+
+def translate_generate_transition() -> str:
+    fn = _func(ast.parse(_src("lymph/matrix.py")), "generate_transition")
+    if [a.arg for a in fn.args.args] != ["lnls", "num_states"]:
+        raise Untranslatable("signature")
+    g = Grid()
+    g.nat.env["num_states"] = ("num_states", NAT)
+    body = g.block(_strip_doc(fn.body), None)
+    return ("Definition gen_generate_transition (lnl_names : list string) (inc : string -> list edge) (tt : edge -> tensor)\n"
+            "  (num_states : nat) : mat :=\n  " + body + ".\n"
+            "Lemma gen_generate_transition_np : forall l inc tt b,\n"
+            "  gen_generate_transition l inc tt b = np_generate_transition l inc tt b.\n"
+            "Proof. intros. reflexivity. Qed.\n"
+            "Lemma gen_generate_transition_eq : forall g, wf_graphb g = true ->\n"
+            "  gen_generate_transition (lnls g) (inc_edges g) (transition_tensor (g_base g)) (g_base g) = generate_transition g.\n"
+            "Proof. intros g H. rewrite gen_generate_transition_np. apply np_generate_transition_eq. exact H. Qed.\n")
+
+
 HEADER = ("(* GENERATED on every run by harness/translate2.py from the Python source of lymph; do not edit *)\n"
-          "From LymphModel Require Import Base States Linalg Graph Transition Observation Dist Unilateral Numpy.\n"
+          "From LymphModel Require Import Base States Linalg Graph Transition Observation Dist Unilateral Numpy NumpyTransition.\n"
           "Local Open Scope nat_scope.\nOpen Scope Qc_scope.\n\n"
           "Lemma fold_left_ext_pairs : forall (h : nat -> string -> Qc) l acc,\n"
           "  fold_left (fun acc (x : nat * string) => acc * h (fst x) (snd x)) l acc\n"
@@ -655,6 +827,7 @@ PIECES = {
     "comp_bayes_net_prob": (translate_comp_bayes_net_prob, "gen_comp_bayes_net_prob_eq", "lymph/graph.py LymphNodeLevel.comp_bayes_net_prob"),
     "comp_obs_prob": (translate_comp_obs_prob, "gen_comp_obs_prob_eq", "lymph/graph.py AbstractNode.comp_obs_prob"),
     "transition_prob": (translate_transition_prob, "gen_transition_prob_eq", "lymph/models/unilateral.py Unilateral.transition_prob"),
+    "generate_transition": (translate_generate_transition, "gen_generate_transition_eq", "lymph/matrix.py generate_transition"),
     "compute_encoding": (translate_compute_encoding, "gen_compute_encoding_eq", "lymph/matrix.py compute_encoding (main loop)"),
 }
 
